@@ -283,6 +283,10 @@ where
         for i in 0..num_of_nodes {
             for j in 0..num_of_nodes {
                 if let Some(dist) = m_dist {
+                    // an unreachable leg stays unreachable, whatever the sign of the other leg
+                    if dist[i][k] == K::max() || dist[k][j] == K::max() {
+                        continue;
+                    }
                     let (result, overflow) = dist[i][k].overflowing_add(dist[k][j]);
                     if !overflow && dist[i][j] > result {
                         dist[i][j] = result;
